@@ -156,7 +156,9 @@ def calculate_time_slot(
 
     time_slot_size = service_interval / total_runners
     runner_start_time = runner_position * time_slot_size
-    runner_end_time = runner_start_time + time_slot_size - spread_margin
+    # The end of a slot is computed by the same expression that computes the start of the
+    # next one, so floating-point rounding can never make two adjacent windows cross.
+    runner_end_time = (runner_position + 1) * time_slot_size - spread_margin
 
     # Ensure the window is valid
     if runner_end_time <= runner_start_time:
